@@ -41,7 +41,7 @@ func (propC20) Rule() string {
 }
 func (propC20) Runs(tier string) int {
 	if tier == "thorough" {
-		return 1500000
+		return 400000
 	}
 	return 30000
 }
